@@ -22,7 +22,7 @@ func init() {
 			"Non-trivial+distinct = hash of bitmaps with at least two 1-bits and one 0.",
 		Assumptions: []string{"only 0 <= i < n (outside, the functions panic by design)"},
 		Flavours:    releaseAnd386,
-		Required: []string{"arguments-in-read-only-memory", "i=n-1", "i%32=31", "i%32=0", "i%32=1", "answer-word!=checkpoint-word", "next/same-word", "next/later-word", "next/skips-empty-words", "next/absent",
+		Required: []string{"long-run/calls>=100000-per-function", "arguments-in-read-only-memory", "i=n-1", "i%32=31", "i%32=0", "i%32=1", "answer-word!=checkpoint-word", "next/same-word", "next/later-word", "next/skips-empty-words", "next/absent",
 			"lane=0", "lane=1", "lane=2", "lane=3", "answer-in-high-byte-of-lane", "answer-in-low-byte-of-lane", "bitmap/no-ones", "ones>=65536", "words>=65536", "gap>=2^31/31-bits"},
 		Families: func(c *mon.Config) []mon.Family {
 			return []mon.Family{
@@ -47,6 +47,7 @@ func init() {
 				{Name: "zoo-long", Env: 4, N: c.Pick(400, 100000), Run: c02ZooLong},
 				{Name: "dense-long", Env: 3, N: c.Pick(6, 300), Run: c02DenseLong},
 				{Name: "huge-sparse", N: c.Pick(1, 6), Run: c02HugeSparse},
+				lrFamily(c02LongRun),
 			}
 		},
 	})
@@ -85,6 +86,11 @@ func c02Check(w *mon.W, words []uint64, pos *[]int32, cov *c02Cov) bool {
 	w.Obj = nil
 	w.Op = "IndexSelect32"
 	sidx := bitmap.IndexSelect32(words)
+	if nw > 0 && words[0]&3 == 1 {
+		w.Op = "IndexRank64/IndexRank128 (neighbouring builders between two select builders)"
+		bitmap.IndexRank128(words)
+		bitmap.IndexRank64(words, true)
+	}
 	w.Op = "IndexSelect32R64"
 	sidx2, ridx := bitmap.IndexSelect32R64(words)
 	w.Eval(2)
